@@ -45,7 +45,7 @@ CLAIMED.update({
  "C16": _c("proof", "Theorems C16_write_failure / C16_clean_prefix / C16_read_failure / C16_read_failure_buffer for every input, policy, write index k and sink behaviour after k.",
            "DESIGN.md section 5 C16", TIE_NOTE, "Coq proof over the write-sequence model + fault injection at every write index and reader offset"),
  "C11": _c("proof", "Theorems C11_first_loop_partial / C11_noopener_loop_partial / C11_noopener_keeps_tokens / C11_no_duplicate / C11_tokens_kept / C11_elements: the per-loop post-conditions of the link-hardening block for every attribute list and option combination "
-           "(tokens really present as white-space separated tokens, flags, first target, no duplication, nothing removed). Partial: the composition through link_pass's flag plumbing is covered by the link correspondence (32 option combinations) and the output oracle.",
+           "(tokens really present as white-space separated tokens, flags, first target, no duplication, nothing removed). C11_attrs composes them through link_pass and sanitizeAttrs: for every policy with one of the five options on, every a/area/link/base and every attribute list, if the returned list carries an href then rel exists and every rel has nofollow / noreferrer as required (fully-qualified variants when some href has a host), for a with a host-qualified href and AddTargetBlank the first target exists and is _blank, for a with some target _blank every rel has noopener, and existing rel tokens are kept. C11_output_tokens: the same for the tags read from the output bytes (policies without comments / raw-text elements). Partial: byte level for comment/raw-text policies; link correspondence (32 option combinations) and output oracle.",
            "DESIGN.md section 5 C11", TIE_NOTE, "Coq proofs by list induction over the model of the rel/target loops + differential correspondence on sanitizeAttrs + output oracle"),
  "C12": _c("proof", "Theorems C12_crossorigin / C12_sandbox / C12_sandbox_names for every element, attribute list, policy and matcher interpretation; the element table and the SandboxValue->token map are regenerated from the source and re-checked by computation.",
            "DESIGN.md section 5 C12", TIE_NOTE, "Coq proof by list induction over the model of sanitizeAttrs + generated-table instance facts + differential correspondence"),
